@@ -196,6 +196,8 @@ def source_audit():
 # properties decided on the key path of package device: their proof obligations include the tie between the function
 # bodies regenerated from device.go / events.go (Hidi/Gen/Bodies.lean) and the model (HidiProofs/Props/GenTie.lean)
 GENTIE_PROPS = {"C01", "C02", "C03", "C04", "C13", "C14"}
+# properties decided on the axis path: handleABSEvent / processEvent regenerated and proved equal to the model (GenTieAbs.lean)
+GENTIE_ABS_PROPS = {"C01", "C05", "C06", "C07", "C08"}
 
 
 def prop_modules(prop):
@@ -205,6 +207,8 @@ def prop_modules(prop):
     mods = [os.path.basename(f)[:-5] for f in files]
     if prop in GENTIE_PROPS and os.path.exists(os.path.join(LEAN, "HidiProofs", "Props", "GenTie.lean")):
         mods.append("GenTie")
+    if prop in GENTIE_ABS_PROPS and os.path.exists(os.path.join(LEAN, "HidiProofs", "Props", "GenTieAbs.lean")):
+        mods.append("GenTieAbs")
     return mods
 
 
